@@ -217,6 +217,10 @@ type chainEngine struct {
 	relabelMinimal bool
 	builds         int64
 	mu             sync.Mutex
+	// lockstep: exit status and executed set of every build of the mode-all universes, keyed by universe and
+	// history; the same history under load_outputs=minimal must give the same (direct lock-step oracle, also
+	// where the reference model makes no prediction)
+	lockstep map[string]string
 }
 
 func marksDir(b *hist.Box) string { return filepath.Join(b.Dir, "marks") }
@@ -458,6 +462,24 @@ func (e *chainEngine) doOp(n *cnode, op chainOp) *cnode {
 			vio("C03:target-executed-twice-in-one-build:"+l, "%s was executed more than once in one build; trace %v", l, rr.Trace)
 		}
 		executed[t] = true
+	}
+	if e.lockstep != nil && op.Arg != "slow-taint-clear" {
+		ex := make([]string, 0, len(executed))
+		for t := range executed {
+			ex = append(ex, t)
+		}
+		sort.Strings(ex)
+		obs := fmt.Sprintf("exit=%v executed=%v", rr.Exit == 0, ex)
+		key := fmt.Sprintf("nocache=%s|queue=%v|%s", n.st.NoCachePos, n.st.Queue, strings.Join(histNow, ">"))
+		e.mu.Lock()
+		ref, have := e.lockstep[key]
+		if !n.st.Minimal {
+			e.lockstep[key] = obs
+		}
+		e.mu.Unlock()
+		if n.st.Minimal && have && ref != obs && !n.st.Queue {
+			e.c.R.Violate(vc.Violation{Sig: "C15:lock-step:minimal-differs-from-all:after:" + last, Detail: fmt.Sprintf("history %v: under load_outputs=all the last build gave %s, under load_outputs=minimal %s", histNow, ref, obs), Replay: replay})
+		}
 	}
 	if rr.TimedOut {
 		vio("C04:build-hangs:after:"+last, "grog build did not exit within the ceiling")
